@@ -199,7 +199,7 @@ fn all_store_scenarios() -> Vec<String> {
     let mut out = vec![];
     let mut kstates = vec!["absent".to_string()];
     for ver in VERSIONS { for (si, st) in STATES.iter().enumerate() {
-        for val in ["5", "x", "2147483647"] {
+        for val in ["5", "x", "2147483647", "NEW"] {
             let val = if *st == ValueStatus::Deleted { "<Empty>" } else { val };
             kstates.push(format!("{}:{}:{}", ver, si, val));
         } } }
@@ -1353,6 +1353,7 @@ fn scenario_snapshot(sc: &str) -> Result<Violations, String> {
     let (id0, strat0) = { let m = dbs.map.read().unwrap(); let db = m.get("snapdb").unwrap(); (db.metadata.id, db.metadata.consensus_strategy) };
     let mut v: Violations = vec![];
     let mut snap: Option<Vec<(String, String, i32)>> = None;
+    let meta_lost = std::cell::Cell::new(false);
     for op in sc.split('.').filter(|o| !o.is_empty()) {
         let ok = catch_unwind(AssertUnwindSafe(|| {
             let b = op.as_bytes();
@@ -1369,10 +1370,12 @@ fn scenario_snapshot(sc: &str) -> Result<Violations, String> {
                     // a snapshot changes nothing a client can see
                     Some((before.clone(), live(&dbs) == before, false))
                 }
+                // the metadata file is lost (an older release did not write one; a crash cut it short): the database must come back with the `newer` strategy
+                b'M' => { let _ = std::fs::remove_file(format!("{}/{}-nun.madadata", dir, name)); meta_lost.set(true); None }
                 _ if !std::path::Path::new(&format!("{}.keys", file_name_from_db_name(&name))).exists() => None,   // nothing was ever snapshotted: no restart to judge
                 _ => {
                     let (db, _) = create_db_from_file_name(&format!("{}-nun.data.keys", name), &dbs);
-                    let meta_ok = db.metadata.id == id0 && db.metadata.consensus_strategy == strat0;
+                    let meta_ok = if meta_lost.get() { db.metadata.consensus_strategy == ConsensuStrategy::Newer } else { db.metadata.id == id0 && db.metadata.consensus_strategy == strat0 };
                     dbs.map.write().unwrap().insert(name.clone(), db);
                     Some((live(&dbs), meta_ok, true))
                 }
@@ -1390,6 +1393,7 @@ fn scenario_snapshot(sc: &str) -> Result<Violations, String> {
                     chk(&mut v, "C06.write-plan", &state == sn);
                     chk(&mut v, "C06.restore-is-snapshot", &state == sn);
                     chk(&mut v, "C06.metadata-restored", flag);
+                    if meta_lost.get() { chk(&mut v, "C19.default-strategy-newer", flag); }
                 }
             }
         }
@@ -1409,7 +1413,7 @@ fn all_snapshot_scenarios() -> Vec<String> {
         if p == len { break; }
     }
     for h in ["va0.S.L", "va0.R.L", "va1.S.L", "va1.sa0.S.L", "va1.ia.S.L", "va1.ia.ia.R.L", "sa0.va0.S.L", "sa0.S.va0.S.L", "va2.sa0.sa0.R.L", "sa0.S.sb0.S.ra.S.L.sb2.S.L", "sa0.S.sb0.S.ra.S.L.rb.S.L", "sa0.S.sb5.S.ra.S.L.ib.S.L", "sb0.S.sa0.S.rb.S.L.sa2.S.L.R.L", "sa0.S.sa2.S.L.ra.S.L.sa3.R.L", "sa5.sb4.S.ra.S.sa0.S.L.ia.R.L.rb.S.L", "sa3.ia.ia.S.L.ia.S.L", "sa0.S.ra.R.sa1.S.L", "sa0.sb0.R.ra.S.sb2.S.L.R.L",
-              "sa0.ra.S.L", "sa0.S.ra.sa1.S.L", "sa1.S.L.sa1.S.L", "sa0.S.L.ra.S.L.L"] { out.push(h.to_string()); }
+              "sa0.ra.S.L", "sa0.S.ra.sa1.S.L", "sa1.S.L.sa1.S.L", "sa0.S.L.ra.S.L.L", "sa0.S.M.L", "sa0.sb0.R.M.L", "sa0.S.M.L.sa1.S.L"] { out.push(h.to_string()); }
     out.sort(); out.dedup();
     out
 }
@@ -1427,6 +1431,8 @@ fn scenario_resync(sc: &str) -> Result<Violations, String> {
     let w = World { dbs: primary.clone() };
     let (mut c, mut rx) = Client::new_empty_and_receiver();
     for cmd in ["auth u p".to_string(), format!("create-db d tok {}", p[0]), "use-db d tok".to_string(), format!("set a {}", val), format!("set a {}", val)] { run_cmd(&w, &mut c, &mut rx, &cmd); }
+    // the users of the database and their permission lists are ordinary ($$) keys of it: they have to travel too
+    for cmd in ["create-user alice at", "set-permissions alice r a"] { run_cmd(&w, &mut c, &mut rx, cmd); }
     if p[2] == "1" {
         run_cmd(&w, &mut c, &mut rx, "set g gone");
         { let m = primary.map.read().unwrap(); let db = m.get("d").unwrap(); let e = db.get_value("g".into()).unwrap(); db.set_value_as_ok(&"g".to_string(), &e, 1, 2, e.opp_id); }
@@ -1449,6 +1455,10 @@ fn scenario_resync(sc: &str) -> Result<Violations, String> {
     // ---- values byte for byte, same versions
     let pa = pd.get_value("a".into()).unwrap(); let ja = jd.get_value("a".into());
     chk(&mut v, "C05.sync-line-carries-version", ja.as_ref().map_or(false, |e| e.value == pa.value && e.version == pa.version && e.state != ValueStatus::Deleted));
+    // ---- every live key of the primary exists on the joiner (names only: what the lines do to values is judged above)
+    let live_names = |d: &Database| -> Vec<String> { let m = d.map.read().unwrap(); let mut n: Vec<String> = m.iter().filter(|(k, e)| e.state != ValueStatus::Deleted && k.as_str() != "$connections").map(|(k, _)| k.clone()).collect(); n.sort(); n };
+    let (pn, jn) = (live_names(pd), live_names(jd));
+    chk(&mut v, "C05.full-sync-sends-every-key", pn.iter().all(|k| jn.contains(k)));
     // ---- a key removed on the primary is not alive on the joiner
     if p[2] == "1" { chk(&mut v, "C05.sync-skips-removed-keys", jd.get_value("g".into()).map_or(true, |e| e.state == ValueStatus::Deleted)); }
     Ok(v)
@@ -2030,7 +2040,7 @@ fn family_props(fam: &str) -> &'static [&'static str] {
     match fam {
         "store" => &["C01", "C02", "C03", "C08"], "strategy" => &["C02", "C13", "C19"], "pending" => &["C15"], "ids" => &["C16"], "keymap" => &["C16"],
         "oplog" => &["C05", "C12"], "session" => &["C01", "C08", "C09"], "permchange" => &["C09"], "arbiter" => &["C06", "C13"], "watch" => &["C03"], "lines" => &[], "flood" => &[],
-        "connections" => &["C17"], "snapshot" => &["C01", "C06"], "resync" => &["C05"], "election" => &["C07"], "http" => &["C20"], "httpserver" => &["C08", "C09", "C17", "C20"], "tcpserver" => &["C03", "C17"], "race" => &["C01", "C02"], "oplogdisk" => &["C16"], "wsserver" => &["C03", "C17", "C20"],
+        "connections" => &["C17"], "snapshot" => &["C01", "C06", "C19"], "resync" => &["C05"], "election" => &["C07"], "http" => &["C20"], "httpserver" => &["C08", "C09", "C17", "C20"], "tcpserver" => &["C03", "C17"], "race" => &["C01", "C02"], "oplogdisk" => &["C16"], "wsserver" => &["C03", "C17", "C20"],
         "values" => &["C01", "C03"], "forward" => &["C08", "C09"], "resub" => &["C03"], "logthread" => &["C05", "C12", "C15"], "logroll" => &["C12"], "linktag" => &["C07"], "replica" => &["C02", "C05", "C19"],
         _ => &[],
     }
